@@ -201,6 +201,14 @@ def interleave_chunk(items, extra):
         fg = FormulaGrader(answers='x^2+sin(y)', variables=['x', 'y'])
         rid = start
         pool = []
+        # a few array literals built from names: their value and dimension depend on the scope of each evaluation
+        for names in (['x', 'x_1'], ['x', "y'", 'sin'], ['x_1', 'x']):
+            toks = [X.tk_op('[')]
+            for j, nm in enumerate(names):
+                toks += ([X.tk_op(',')] if j else []) + [X.tk_name(nm)]
+            toks.append(X.tk_op(']'))
+            pool.append({'id': -1, 'kind': 'array', 'toks': [{k: t[k] for k in ('k', 's', 'q', 'a')} for t in toks],
+                         'text': X.render_records(toks)})
         for k in range(count):
             r = rng.random()
             if r < 0.08:
